@@ -87,4 +87,130 @@ theorem Ret.max_cont {a b : Ret} (h : a.max b = .cont) : a = .cont ∧ b = .cont
   cases a <;> cases b <;> simp [Ret.max] at h ⊢
 
 
+
+/-- once a terminal outcome is remembered it stays remembered -/
+theorem exec_last_kept (cfg : Cfg) (n : Node) (sub : Option Nat) (td : Bool) (st : St) (h : st.last.isSome = true) :
+    (exec cfg n sub td st).1.last.isSome = true :=
+  exec_preserves cfg (fun s => s.last.isSome = true)
+    (fun p sub s h => runPhase_last cfg p sub s h)
+    (fun p sub s h => by simpa [skipPhase] using h)
+    (fun c sub s h => by unfold evalCheckpoint; exact finishNode_last _ _ (by simpa using h))
+    (fun a b h _ hl => by rw [hl]; exact h)
+    n sub td st h
+
+theorem execAb_last_kept (cfg : Cfg) (ns : List Node) (sub : Option Nat) (st : St) (h : st.last.isSome = true) :
+    (execAb cfg ns sub st).1.last.isSome = true :=
+  exec_preserves.lAb cfg (fun s => s.last.isSome = true)
+    (fun p sub s h => runPhase_last cfg p sub s h)
+    (fun p sub s h => by simpa [skipPhase] using h)
+    (fun c sub s h => by unfold evalCheckpoint; exact finishNode_last _ _ (by simpa using h))
+    (fun a b h _ hl => by rw [hl]; exact h)
+    ns sub st h
+
+theorem execTd_last_kept (cfg : Cfg) (ns : List Node) (sub : Option Nat) (st : St) (h : st.last.isSome = true) :
+    (execTd cfg ns sub st).1.last.isSome = true :=
+  exec_preserves.lTd cfg (fun s => s.last.isSome = true)
+    (fun p sub s h => runPhase_last cfg p sub s h)
+    (fun p sub s h => by simpa [skipPhase] using h)
+    (fun c sub s h => by unfold evalCheckpoint; exact finishNode_last _ _ (by simpa using h))
+    (fun a b h _ hl => by rw [hl]; exact h)
+    ns sub st h
+
+theorem finishNode_term (st : St) (o : Res) (h : (finishNode st o).2 = .term) : (finishNode st o).1.last.isSome = true := by
+  unfold finishNode at h ⊢
+  by_cases ht : o.isTerminal = true
+  · simp only [ht, if_true]; exact setLast_isSome st o
+  · exfalso; rw [if_neg ht] at h; split at h <;> simp at h
+
+theorem Ret.max_term {a b : Ret} (h : a.max b = .term) : a = .term ∨ b = .term := by
+  cases a <;> cases b <;> simp [Ret.max] at h ⊢
+
+theorem Ret.ne_cont {a : Ret} (h : (a != .cont) = true) : a = .term := by cases a <;> simp at h ⊢
+
+/-- a node returns TERMINAL only with a terminal outcome remembered -/
+theorem exec_term_last (cfg : Cfg) : ∀ (n : Node) (sub : Option Nat) (td : Bool) (st : St),
+    (exec cfg n sub td st).2 = .term → (exec cfg n sub td st).1.last.isSome = true
+  | .phase p, sub, td, st, h => by
+    simp only [exec, execPhaseNode] at h ⊢
+    split at h
+    · simp at h
+    · rename_i hc; simp only [hc] at ⊢; exact finishNode_term _ _ h
+  | .checkpoint c, sub, td, st, h => by
+    simp only [exec, execCheckpoint] at h ⊢
+    split at h
+    · simp at h
+    · rename_i hc; simp only [hc] at ⊢; exact finishNode_term _ _ h
+  | .seq ns, sub, td, st, h => by
+    simp only [exec] at h ⊢
+    cases td
+    · simp only [Bool.false_eq_true, if_false] at h ⊢; exact lAb ns sub st h
+    · simp only [if_true] at h ⊢; exact lTd ns sub st h
+  | .subtest name ns, sub, td, st, h => by
+    simp only [exec] at h ⊢
+    cases td
+    · simp only [Bool.false_eq_true, if_false] at h ⊢; exact lAb ns (some name) _ h
+    · simp only [if_true] at h ⊢; exact lTd ns (some name) _ h
+  | .branch id c ns, sub, td, st, h => by
+    simp only [exec] at h ⊢
+    split at h
+    · simp at h
+    · rename_i h1; simp only [h1] at ⊢
+      split at h
+      · rename_i h2; simp only [h2, if_true] at ⊢
+        cases td
+        · simp only [Bool.false_eq_true, if_false] at h ⊢; exact lAb ns sub st h
+        · simp only [if_true] at h ⊢; exact lTd ns sub st h
+      · simp at h
+  | .group s m t, sub, td, st, h => by
+    simp only [exec] at h ⊢
+    cases td
+    · simp only [Bool.false_eq_true, if_false] at h ⊢
+      split at h
+      · rename_i hne; rw [if_pos hne]; exact lAb s sub st (Ret.ne_cont hne)
+      · rename_i hc; rw [if_neg hc]
+        rcases Ret.max_term h with h2 | h3
+        · have := lAb m sub _ h2
+          show (ite _ _ _ : St × Ret).1.last.isSome = true
+          split
+          · exact execTd_last_kept cfg t sub _ this
+          · exact execAb_last_kept cfg t sub _ this
+        · show (ite _ _ _ : St × Ret).1.last.isSome = true
+          split at h3
+          · rename_i hC; rw [if_pos hC]; exact lTd t sub _ h3
+          · rename_i hC; rw [if_neg hC]; exact lAb t sub _ h3
+    · simp only [if_true] at h ⊢
+      split at h
+      · rename_i hne; rw [if_pos hne]; exact lTd s sub st (Ret.ne_cont hne)
+      · rename_i hc; rw [if_neg hc]
+        rcases Ret.max_term h with h2 | h3
+        · have := lTd m sub _ h2
+          show (ite _ _ _ : St × Ret).1.last.isSome = true
+          split
+          · exact execTd_last_kept cfg t sub _ this
+          · exact execAb_last_kept cfg t sub _ this
+        · show (ite _ _ _ : St × Ret).1.last.isSome = true
+          split at h3
+          · rename_i hC; rw [if_pos hC]; exact lTd t sub _ h3
+          · rename_i hC; rw [if_neg hC]; exact lAb t sub _ h3
+where
+  lAb : ∀ (ns : List Node) (sub : Option Nat) (st : St),
+      (execAb cfg ns sub st).2 = .term → (execAb cfg ns sub st).1.last.isSome = true
+    | [], _, _, h => by simp [execAb] at h
+    | n :: ns, sub, st, h => by
+      simp only [execAb] at h ⊢
+      split at h
+      · rename_i hne; simp only [hne, if_true] at ⊢; exact exec_term_last cfg n sub false st (Ret.ne_cont hne)
+      · rename_i hc; simp only [hc] at ⊢; exact lAb ns sub _ h
+  lTd : ∀ (ns : List Node) (sub : Option Nat) (st : St),
+      (execTd cfg ns sub st).2 = .term → (execTd cfg ns sub st).1.last.isSome = true
+    | [], _, _, h => by simp [execTd] at h
+    | n :: ns, sub, st, h => by
+      simp only [execTd] at h ⊢
+      rcases Ret.max_term h with h1 | h2
+      · exact execTd_last_kept cfg ns sub _ (exec_term_last cfg n sub true st h1)
+      · exact lTd ns sub _ h2
+
+theorem Ret.not_term {a : Ret} (h : ¬ a = .term) : a = .cont := by cases a <;> simp at h ⊢
+
+
 end OpenHTF.Exec
